@@ -62,14 +62,15 @@ Inductive op :=
 | ORZ                          (* os.remove(zip) *)
 | OZTW                         (* repaired code: archive written to <zip>.tmp *)
 | OZMV                         (* repaired code: os.replace(<zip>.tmp, zip) *)
-| ODMV.                        (* repaired code: os.replace(search_internal.dill.tmp, search_internal.dill) *)
+| ODMV (f : fstate).           (* repaired code: os.replace(search_internal.dill.tmp, search_internal.dill);
+                                  f = what the temporary file holds (it was just written completely) *)
 
 Inductive event := EW (r : role) | EA (r : role) | ER (r : role) | EZW | ERZ | EZTW | EZMV | EDMV.
 
 Definition event_of (o : op) : event :=
   match o with
   | OW r _ => EW r | OA r => EA r | OR r => ER r
-  | OZW => EZW | ORZ => ERZ | OZTW => EZTW | OZMV => EZMV | ODMV => EDMV
+  | OZW => EZW | ORZ => ERZ | OZTW => EZTW | OZMV => EZMV | ODMV _ => EDMV
   end.
 
 Definition apply (o : op) (s : fs) : fs :=
@@ -81,7 +82,7 @@ Definition apply (o : op) (s : fs) : fs :=
   | ORZ => mkfs (fd s) ZAbsent (ftmp s)
   | OZTW => mkfs (fd s) (fz s) true
   | OZMV => mkfs (fd s) (ZFull (fd s)) false
-  | ODMV => mkfs (upd (upd (fd s) Dill (fd s DillTmp)) DillTmp Absent) (fz s) (ftmp s)
+  | ODMV f => mkfs (upd (upd (fd s) Dill f) DillTmp Absent) (fz s) (ftmp s)
   end.
 
 Definition exec (l : list op) (s : fs) : fs := fold_left (fun s o => apply o s) l s.
@@ -96,7 +97,7 @@ Definition apply_empty (o : op) (s : fs) : fs :=
             end
   | OZW => mkfs (fd s) ZPartial (ftmp s)
   | OZTW => mkfs (fd s) (fz s) true
-  | OR _ | ORZ | OZMV | ODMV => s
+  | OR _ | ORZ | OZMV | ODMV _ => s
   end.
 
 (* operation o was the last one and the process died before its content was completely on disk *)
@@ -104,7 +105,7 @@ Definition cut (o : op) (s : fs) : fs :=
   match o with
   | OW r _ | OA r => if empty_content r then s else mkfs (upd (fd s) r (Part PHalf)) (fz s) (ftmp s)
   | OZW => mkfs (fd s) ZPartial (ftmp s)
-  | OZTW | OR _ | ORZ | OZMV | ODMV => s
+  | OZTW | OR _ | ORZ | OZMV | ODMV _ => s
   end.
 
 Definition writes (o : op) : bool :=
@@ -205,7 +206,7 @@ Definition timer_ops (cd : code) (s : fs) : list op * option exc :=
 
 (* DirectoryPaths.save_search_internal *)
 Definition dill_write (cd : code) (f : fstate) : list op :=
-  if fx_dill cd then [OW DillTmp f; ODMV] else [OW Dill f].
+  if fx_dill cd then [OW DillTmp f; ODMV f] else [OW Dill f].
 
 (* the search's _fit: (ops, exception | generation of the final internal state, sampled?, returns an internal state?) *)
 Definition fit_ops (cd : code) (c : cfg) (tag : nat) (s : fs)
